@@ -16,6 +16,7 @@ META = {
     "assumptions": [
         "stub fmt_empty for std::fmt::format (error payloads only)",
         "12.a: <SolarDay as Tyme>::next replaced by a ghost that records its argument and returns any valid date; that the real one moves by exactly n civil days is C01 (01.c/01.d/01.g)",
+        "12.a/A/next-calendar: <SolarDay as Tyme>::next replaced by the closed form refcal::near for |n| <= 45 days (lemma 14.L + C01)",
         "12.b: SolarDay::get_julian_day replaced by the ghost strictly monotone day count (01.c + 01.r)",
         "12.d tolerance 0.501 s: 0.5 s rounding plus float round-off of the day fraction at 2^-31 day resolution",
     ],
@@ -33,6 +34,8 @@ def jobs(tier, seed):
     J.append(Job("12.a/A/next", "c12::c12a_next", [1000 if not T else 100000], stubs=["fmt_empty", "sd_next_ghost"], est=90 if not T else 2000, timeout=900 if not T else 2400,
                  witness_optional=[] if T else ["more than a day ahead"], clause="12.a",
                  bound="all instants, |n| <= %d (bit-blasted cross-check of the day hand-off; engine B covers |n| <= 1e9)" % (1000 if not T else 100000)))
+    J.append(Job("12.a/A/next-calendar", "c12::c12a_next_cal", [1000 if not T else 20000, 1, 9999], stubs=["fmt_empty", "sd_next_near"], unwind=9, est=60 if not T else 1500, timeout=900 if not T else 2400,
+                 clause="12.a", bound="all instants, |n| <= %d s, result date on the reference calendar (SolarDay::next = closed form near, lemma 14.L)" % (1000 if not T else 20000)))
     J.append(Job("12.c/order", "c12::c12c_order", [], est=50, timeout=900, clause="12.c", bound="all pairs of instants"))
     if T:
         J.append(Job("12.b/A/subtract", "c12::c12b_subtract", [], stubs=["fmt_empty", "sd_jd_ghost"], est=400, timeout=2400, clause="12.b", bound="all pairs of instants"))
